@@ -146,7 +146,7 @@ def make_scenario(idx, mode, path, moment, entry, delay=None):
 
 def case_of(sc):
     c = {k: sc[k] for k in ("mode", "path", "moment", "entry", "delay")}
-    for k in ("backlog", "burst", "reuse"):
+    for k in ("backlog", "burst", "reuse", "enter_deadline"):
         if sc.get(k):
             c[k] = sc[k]
     return c
@@ -185,6 +185,15 @@ def gen_scenarios(ctx):
             sc = make_scenario(len(scs), "well", path, "before", entry)
             sc["burst"] = 20
             scs.append(sc)
+    # the cancellation / deadline expires WHILE the context is being entered (2 .. 90 ms after the call)
+    for path in PATHS:
+        if path in ("normal", "exception"):
+            continue
+        for entry in ENTRIES:
+            for d in (0.002, 0.02, 0.045, 0.09):
+                sc = make_scenario(len(scs), "well", path, "before", entry)
+                sc["enter_deadline"] = d
+                scs.append(sc)
     # the same StdioClient object used for a second conversation
     for mode in ("well", "ignore_term", "floods"):
         for path in ("normal", "cancel_scope"):
@@ -310,6 +319,9 @@ def evaluate(scs, results, model, spec, variant):
         if sc["kind"] == "spawn":
             spec_reqs.append(call(2, sx(False), sx(bool(r["entered"]))))
             spec_keys.append((v, "enter"))
+            continue
+        if r["pid"] is None and sc.get("enter_deadline") is not None and r.get("fd_after") == r.get("fd_before"):
+            v["skipped"] = "cancelled-before-anything-was-spawned"      # nothing to clean up, nothing left: fine
             continue
         if r["dur"] is None or r["pid"] is None:
             v["problem"] = "no duration / no child observed"
@@ -477,6 +489,10 @@ def explore(ctx, model, spec):
             ctx.count("spawn:" + sc["spawn"])
             ctx.count("enter-raised:" + str(r["raised"]))
             ctx.spec_total += 1
+        elif v.get("skipped"):
+            case = case_of(sc)
+            ctx.case(case, nontrivial=False)
+            ctx.count("skipped:" + v["skipped"])
         else:
             case = case_of(sc)
             ctx.case(case, nontrivial=True)
@@ -551,7 +567,7 @@ def replay(ctx, data):
             scs = [s for s in gen_spawn(tmp, 0) if s["spawn"] == case["spawn"] and s["entry"] == case["entry"]]
         else:
             scs = [make_scenario(0, case["mode"], case["path"], case["moment"], case["entry"], case.get("delay") or None)]
-            for k in ("backlog", "burst", "reuse"):
+            for k in ("backlog", "burst", "reuse", "enter_deadline"):
                 if case.get(k):
                     scs[0][k] = case[k]
         fails = 0
